@@ -15,6 +15,25 @@
 //!  (3) pred   (c02-history <this> <objects> <kind> <program> (world …) (history …))   [label `hist`]
 //!             answer = as (1); only for int/bool/QString programs built from history-safe forms
 //!
+//! Every 4th int/bool/QString program is the value of a MEMBER of a gadget property of object a (`font.family: …`,
+//! `sizePolicy.horizontalStretch: …`) next to 0-2 constant and 0-2 dynamic sibling members (`(siblings (sib "font.pointSize"
+//! "12" const "pointsize" "12") (sib "font.italic" "b.next.b" dyn))` appended to all three requests): the member's real IR
+//! goes through (1) and (3) unchanged, and (2) checks the update path of the WHOLE gadget against the real IR of every
+//! leaf member observed through the hook ("final" phase): one connect per distinct dep of any member in `setup<B>()`,
+//! `update<B>()` = read-modify-write `recv->setP(this->eval<B>(recv->p()))`, `eval<B>(T a)` assigns every member from
+//! its own value function (observer snippets wired to `update<B>`), constant members embedded in the .ui, and
+//! "accepted ∧ a dynamic member has no update path" is a failure.
+//!
+//!  (4) oracle (c02-doc (src "qml") (root "id") (expect accepted | rejected ["message"]) (ledger (b "obj" "path" dyn|const
+//!             ["uitag" "text"])…)) — whole documents over real Qt classes + VBase: plain/grouped (QFont, QSizePolicy)
+//!             bindings on widgets, on the layout, on the root, on a QAction, with sources QLineEdit/QCheckBox/QSpinBox/
+//!             QSlider/QComboBox/root.windowTitle/VBase chains and the forms Math.max/min, "%1".arg() chains, list
+//!             subscripts, the same property twice / through two paths, ternaries, a signal callback next to the
+//!             bindings; documents that must be REJECTED: dynamic attached property, dynamic member of a nested object
+//!             map (horizontalHeader.*), notify-less source, dynamic pseudo property (model / actions).  The same
+//!             document-level oracle as for grouped targets (every leaf the pipeline or the generator's ledger
+//!             considers dynamic has a complete update path; number of bindings in the header = number of dynamic groups).
+//!
 //! Additionally, for every 10th accepted program, an oracle case `(c02-mutant <4 build args> (mutation "m"))`
 //! damages the real header in one specific way and requires the scanner of (2) to refuse it (`(ok detected …)`,
 //! `(ok not-applicable)` when the header has nothing to damage): evidence that the scanner is not vacuous.
@@ -26,7 +45,10 @@ use crate::sexp::{atom, boolean, list, node, num, st, Sexp};
 use crate::streams::ir;
 use crate::{Case, Stream};
 use qmluic::typemap::TypeMap;
+use qmluic::uigen::verif_hook;
+use std::cell::RefCell;
 use std::collections::{BTreeMap, BTreeSet};
+use std::rc::Rc;
 
 pub struct C02 {
     tm: TypeMap,
@@ -536,15 +558,27 @@ impl<'r> G<'r> {
         const NULLCMP: u8 = 9;
         const SEQ: u8 = 10;
         const UCMP: u8 = 11;
+        const MAXMIN: u8 = 12;
+        const SUBSCRIPT: u8 = 13;
+        const ARG: u8 = 14;
+        const TWOPATH: u8 = 15;
         let ls = self.locals_of(ty);
         let mut opts: Vec<(u32, u8)> = vec![];
         if !ls.is_empty() {
             opts.push((5, LOCAL));
         }
         match ty {
-            T::Int => opts.extend([(14, READ), (2, LIT), (8, ARITH), (4, TERN)]),
+            T::Int => opts.extend([(14, READ), (2, LIT), (8, ARITH), (4, TERN), (3, MAXMIN), (2, TWOPATH)]),
             T::Bool => opts.extend([(8, READ), (1, LIT), (2, NOT), (8, ICMP), (6, LOGIC), (6, PCMP), (3, NULLCMP), (3, SEQ), (2, UCMP)]),
-            _ => opts.extend([(12, READ), (2, LIT), (6, ARITH), (4, TERN)]),
+            _ => opts.extend([(12, READ), (2, LIT), (6, ARITH), (4, TERN), (2, TWOPATH)]),
+        }
+        // forms the Lean history evaluator does not interpret (list values, QString::arg): cases 1 and 2 only
+        if self.flavor == Flavor::Other && !self.ptr_result {
+            match ty {
+                T::Int => opts.push((6, SUBSCRIPT)),
+                T::Str => opts.extend([(6, SUBSCRIPT), (8, ARG)]),
+                _ => {}
+            }
         }
         match weighted(self.rng, &opts) {
             READ => self.read(ty, d.min(3)),
@@ -553,6 +587,40 @@ impl<'r> G<'r> {
                 id(&self.locals[i].name.clone())
             }
             LIT => self.literal(ty),
+            MAXMIN => {
+                // Math.max / Math.min of two dynamic reads
+                self.lab("mathmax");
+                let dd = (d - 1).min(2);
+                let l = self.expr(T::Int, dd);
+                let r = self.expr(T::Int, dd);
+                call(mem(id("Math"), *self.rng.pick(&["max", "min"])), vec![l, r])
+            }
+            TWOPATH => {
+                // the same property read twice: through the same path, or through two paths that may meet
+                self.lab("twopaths");
+                let p = if ty == T::Int { "i" } else { "s" };
+                self.mark_prop(p);
+                let x = self.vbase_like(d.min(2)).0;
+                let y = if self.rng.chance(1, 2) { x.clone() } else { self.vbase_like(d.min(2)).0 };
+                bin(if ty == T::Int && self.rng.chance(1, 2) { "sub" } else { "add" }, mem(x, p), mem(y, p))
+            }
+            SUBSCRIPT => {
+                // reads through list subscripts: the list property is what has to be observed
+                self.lab("subscript");
+                self.unsafe_used = true;
+                let o = self.vbase_like(d.min(2)).0;
+                let idx = if self.rng.chance(1, 2) { self.literal(T::Int) } else { self.read(T::Int, 1) };
+                Expr::Subscript(Box::new(mem(o, if ty == T::Int { "ints" } else { "items" })), Box::new(idx))
+            }
+            ARG => {
+                // QString::arg chains over dynamic reads
+                self.lab("arg");
+                self.unsafe_used = true;
+                let a1 = self.expr(T::Str, (d - 1).min(1));
+                let a2 = self.expr(T::Int, (d - 1).min(1));
+                let first = call(mem(Expr::Str("%1-%2".into()), "arg"), vec![a1]);
+                call(mem(first, "arg"), vec![a2])
+            }
             ARITH => {
                 // ints: depth ≤ 3 over |values| ≤ 20ish: no 32-bit overflow; strings: concatenation
                 let dd = (d - 1).min(2);
@@ -1343,27 +1411,45 @@ fn sender(obj: &str) -> String {
     }
 }
 
-/// Checks the real header against the real IR of binding `A<Lhs>`; Ok((distinct deps, observers)).
+type SenderFn<'a> = &'a dyn Fn(&str) -> String;
+
+/// Checks the real header against the real IR of the plain binding `A<Lhs>`; Ok((distinct deps, observers)).
 fn check_header(header: &str, code: &Sexp, lhs: &str) -> Result<(usize, usize), String> {
-    let name = format!("A{}", cap(lhs));
+    check_binding(header, &sender, "a", lhs, &[(vec![], code)])
+}
+
+/// Checks the update path of ONE generated binding `<Object><Top>` of the real header against the real IR of its leaf
+/// members (`members`: sub-path below the top-level property — empty for a plain binding — and the member's IR):
+///  (a) `setup<B>()` connects every distinct static dependency of every member exactly once to `update<B>()`;
+///  (b) every member's value function carries the observer snippets of its IR, wired to `update<B>()`;
+///  (c) the observer arrays; (d) `setup()` calls `setup<B>` before the first update and `update<B>` once;
+///  (e) `update<B>()` writes the property — for a grouped binding by read-modify-write of the WHOLE gadget
+///      (`recv->setP(this->eval<B>(recv->p()))`) where `eval<B>(T a)` assigns every member from its value function.
+fn check_binding(
+    header: &str,
+    sender_of: SenderFn,
+    object: &str,
+    top: &str,
+    members: &[(Vec<String>, &Sexp)],
+) -> Result<(usize, usize), String> {
+    let name = format!("{}{}", cap(object), cap(top));
     let lines: Vec<&str> = header.lines().collect();
 
-    let blocks = field(code, "blocks").ok_or("IR without blocks")?;
-    let deps = field(code, "deps").ok_or("IR without deps")?;
-    let observers = field(code, "observers").and_then(|x| x.first()).and_then(|x| x.as_usize()).ok_or("IR without observers")?;
-
-    // (a) static dependencies: exactly one connect line per distinct (sender, signal)
+    // (a) static dependencies: exactly one connect line per distinct (sender, signal) over all members
     let mut expected: BTreeSet<String> = BTreeSet::new();
-    for d in deps {
-        let l = d.as_list().ok_or("bad dep")?;
-        let obj = l[0].as_str().ok_or("bad dep object")?;
-        let sig = signal_pointer(&l[1]).ok_or("bad dep signal")?;
-        expected.insert(squash(&format!(
-            "QObject::connect({}, {}, this->root_, [this]() {{ this->update{}(); }});",
-            sender(obj),
-            sig,
-            name
-        )));
+    for (_, code) in members {
+        let deps = field(code, "deps").ok_or("IR without deps")?;
+        for d in deps {
+            let l = d.as_list().ok_or("bad dep")?;
+            let obj = l[0].as_str().ok_or("bad dep object")?;
+            let sig = signal_pointer(&l[1]).ok_or("bad dep signal")?;
+            expected.insert(squash(&format!(
+                "QObject::connect({}, {}, this->root_, [this]() {{ this->update{}(); }});",
+                sender_of(obj),
+                sig,
+                name
+            )));
+        }
     }
     let setup = func_body(&lines, &|l| l == format!("void setup{name}()")).ok_or(format!("no function setup{name}"))?;
     let setup_lines: Vec<String> = setup.iter().map(|l| squash(l)).filter(|l| !l.is_empty()).collect();
@@ -1382,8 +1468,86 @@ fn check_header(header: &str, code: &Sexp, lhs: &str) -> Result<(usize, usize), 
         return Err(format!("setup{name}: {} connect lines for {} distinct deps", setup_lines.len(), expected.len()));
     }
 
+    // (b), (c) per member
+    let mut observers_total = 0usize;
+    for (sub, code) in members {
+        let fname = format!("{name}{}", sub.iter().map(|x| cap(x)).collect::<String>());
+        observers_total += check_value_function(&lines, code, &fname, &name)?;
+    }
+
+    // (d) all connections are made before the first evaluation
+    let main = func_body(&lines, &|l| l == "void setup()").ok_or("no function setup")?;
+    let main: Vec<&str> = main.iter().map(|l| l.trim()).filter(|l| !l.is_empty()).collect();
+    let first_update = main.iter().position(|l| l.starts_with("this->update"));
+    let last_setup = main.iter().rposition(|l| l.starts_with("this->setup"));
+    match (last_setup, first_update) {
+        (Some(s), Some(u)) if s < u => {}
+        _ => return Err("setup(): a setup call does not precede the first update call".to_owned()),
+    }
+    if main.iter().filter(|l| **l == format!("this->setup{name}();")).count() != 1 {
+        return Err(format!("setup(): this->setup{name}() not called exactly once"));
+    }
+    if main.iter().filter(|l| **l == format!("this->update{name}();")).count() != 1 {
+        return Err(format!("setup(): this->update{name}() not called exactly once"));
+    }
+
+    // (e) the update function stores the value
+    let update = func_body(&lines, &|l| l == format!("void update{name}()")).ok_or(format!("no function update{name}"))?;
+    let recv = squash(&sender_of(object));
+    let plain = members.len() == 1 && members[0].0.is_empty();
+    if plain {
+        let tail = squash(&format!("(this->eval{name}());"));
+        let n = update
+            .iter()
+            .map(|l| squash(l))
+            .filter(|l| l.starts_with(&format!("{recv}->")) && l.ends_with(&tail) && l.matches('(').count() == 2)
+            .count();
+        if n != 1 {
+            return Err(format!("update{name}: setter call missing"));
+        }
+    } else {
+        // read-modify-write of the whole gadget
+        let mid = squash(&format!("(this->eval{name}({recv}->"));
+        let n = update
+            .iter()
+            .map(|l| squash(l))
+            .filter(|l| l.starts_with(&format!("{recv}->")) && l.contains(&mid) && l.ends_with("()));"))
+            .count();
+        if n != 1 {
+            return Err(format!("update{name}: read-modify-write `recv->setP(this->eval{name}(recv->p()))` missing"));
+        }
+        let gadget = func_body(&lines, &|l| l.contains(&format!(" eval{name}(")) && l.ends_with(" a)"))
+            .ok_or(format!("no gadget function eval{name}(T a)"))?;
+        let glines: Vec<String> = gadget.iter().map(|l| squash(l)).filter(|l| !l.is_empty()).collect();
+        if glines.last().map(|l| l.as_str()) != Some("returna;") {
+            return Err(format!("eval{name}(T a): does not end with `return a;`"));
+        }
+        for (sub, _) in members {
+            if sub.len() != 1 {
+                return Err(format!("{name}: member path {sub:?} deeper than the scanner supports"));
+            }
+            let tail = squash(&format!("(this->eval{name}{}());", cap(&sub[0])));
+            let n = glines.iter().filter(|l| l.starts_with("a.") && l.ends_with(&tail)).count();
+            if n != 1 {
+                return Err(format!("eval{name}(T a): member {} assigned {n} times", sub[0]));
+            }
+        }
+        if glines.len() != members.len() + 1 {
+            return Err(format!("eval{name}(T a): {} lines for {} members", glines.len(), members.len()));
+        }
+    }
+    Ok((expected.len(), observers_total))
+}
+
+/// (b), (c): the value function `eval<fname>()` of one leaf member follows its IR block by block; every observe
+/// statement is the 7-line snippet on the right local/signal wired to `update<update_name>()`, immediately followed by
+/// the read; the observer array `observed<fname>_[N]`.  Ok(observers).
+fn check_value_function(lines: &[&str], code: &Sexp, fname: &str, update_name: &str) -> Result<usize, String> {
+    let name = fname;
+    let blocks = field(code, "blocks").ok_or("IR without blocks")?;
+    let observers = field(code, "observers").and_then(|x| x.first()).and_then(|x| x.as_usize()).ok_or("IR without observers")?;
     // (b) observers in the value function, block by block and statement by statement
-    let eval = func_body(&lines, &|l| l.ends_with(&format!(" eval{name}()"))).ok_or(format!("no function eval{name}"))?;
+    let eval = func_body(lines, &|l| l.ends_with(&format!(" eval{name}()"))).ok_or(format!("no function eval{name}"))?;
     let mut prologue: Vec<String> = vec![];
     let mut hblocks: BTreeMap<usize, Vec<String>> = BTreeMap::new();
     let mut cur: Option<usize> = None;
@@ -1405,7 +1569,7 @@ fn check_header(header: &str, code: &Sexp, lhs: &str) -> Result<(usize, usize), 
         }
     }
     let obs_decl = squash(&format!("auto &observed = observed{name}_;"));
-    let upd_decl = squash(&format!("const auto update = [this]() {{ this->update{name}(); }};"));
+    let upd_decl = squash(&format!("const auto update = [this]() {{ this->update{update_name}(); }};"));
     if observers > 0 {
         if prologue.iter().filter(|l| **l == obs_decl).count() != 1 {
             return Err(format!("eval{name}: missing `auto &observed`"));
@@ -1518,29 +1682,7 @@ fn check_header(header: &str, code: &Sexp, lhs: &str) -> Result<(usize, usize), 
         return Err(format!("{} observe statements for {} observers", handles.len(), observers));
     }
 
-    // (d) all connections are made before the first evaluation
-    let main = func_body(&lines, &|l| l == "void setup()").ok_or("no function setup")?;
-    let main: Vec<&str> = main.iter().map(|l| l.trim()).filter(|l| !l.is_empty()).collect();
-    let first_update = main.iter().position(|l| l.starts_with("this->update"));
-    let last_setup = main.iter().rposition(|l| l.starts_with("this->setup"));
-    match (last_setup, first_update) {
-        (Some(s), Some(u)) if s < u => {}
-        _ => return Err("setup(): a setup call does not precede the first update call".to_owned()),
-    }
-    if main.iter().filter(|l| **l == format!("this->setup{name}();")).count() != 1 {
-        return Err(format!("setup(): this->setup{name}() not called exactly once"));
-    }
-    if main.iter().filter(|l| **l == format!("this->update{name}();")).count() != 1 {
-        return Err(format!("setup(): this->update{name}() not called exactly once"));
-    }
-
-    // (e) the update function stores the value
-    let update = func_body(&lines, &|l| l == format!("void update{name}()")).ok_or(format!("no function update{name}"))?;
-    let want = squash(&format!("this->ui_->a->set{}(this->eval{name}());", cap(lhs)));
-    if update.iter().filter(|l| squash(l) == want).count() != 1 {
-        return Err(format!("update{name}: setter call missing"));
-    }
-    Ok((expected.len(), observers))
+    Ok(observers)
 }
 
 impl C02 {
@@ -1603,6 +1745,741 @@ impl C02 {
             Ok((d, n)) => node("ok", vec![node("deps", vec![num(d)]), node("observers", vec![num(n)])]),
             Err(e) => fail(e),
         }
+    }
+}
+
+
+
+// ------------------------------------------------------------------------------------------------
+// generators for grouped targets and whole documents
+
+const FONT_CONST: &[(&str, &str, &str, &str)] = &[
+    ("font.pointSize", "12", "pointsize", "12"),
+    ("font.bold", "true", "bold", "true"),
+    ("font.italic", "false", "italic", "false"),
+    ("font.family", "\"Serif\"", "family", "Serif"),
+    ("font.underline", "true", "underline", "true"),
+    ("font.weight", "75", "weight", "75"),
+    ("font.strikeout", "false", "strikeout", "false"),
+];
+const FONT_DYN: &[(&str, &str)] = &[
+    ("font.italic", "b.b"),
+    ("font.strikeout", "b.next.b"),
+    ("font.family", "o.name"),
+    ("font.family", "o.base.next.s"),
+    ("font.pointSize", "Math.max(b.i, dv.i)"),
+    ("font.underline", "(o.on ? a : b).next.b"),
+    ("font.bold", "dv.extra > b.i"),
+    ("font.weight", "b.next.peer.n"),
+    ("font.kerning", "o.on"),
+];
+const POLICY_DYN: &[(&str, &str)] = &[
+    ("sizePolicy.verticalStretch", "b.i"),
+    ("sizePolicy.horizontalStretch", "o.n"),
+    ("sizePolicy.verticalStretch", "b.next.i"),
+    ("sizePolicy.horizontalStretch", "Math.min(b.i, 3)"),
+];
+
+/// the member under test + sibling members of the same gadget
+fn grouped_target(rng: &mut Rng, ty: T) -> (String, Vec<Sib>) {
+    let policy = ty == T::Int && rng.chance(1, 4);
+    let lhs: &str = if policy {
+        *rng.pick(&["sizePolicy.horizontalStretch", "sizePolicy.verticalStretch"])
+    } else {
+        match ty {
+            T::Int => *rng.pick(&["font.pointSize", "font.weight"]),
+            T::Bool => *rng.pick(&["font.bold", "font.italic", "font.underline", "font.strikeout", "font.kerning"]),
+            _ => "font.family",
+        }
+    };
+    let mut used: BTreeSet<String> = BTreeSet::new();
+    used.insert(lhs.to_owned());
+    let mut sibs = vec![];
+    let nc = weighted(rng, &[(25, 0), (50, 1), (25, 2)]) as usize;
+    let nd = weighted(rng, &[(45, 0), (40, 1), (15, 2)]) as usize;
+    if policy {
+        if nc > 0 {
+            // a constant policy needs both directions ("both horizontal and vertical policies must be specified")
+            for (p, v) in [("sizePolicy.horizontalPolicy", "QSizePolicy.Expanding"), ("sizePolicy.verticalPolicy", "QSizePolicy.Fixed")] {
+                sibs.push(Sib { path: p.into(), value: v.into(), dynamic: false, ui: None });
+            }
+        }
+        for _ in 0..nd {
+            let (p, v) = *rng.pick(POLICY_DYN);
+            if used.insert(p.to_owned()) {
+                sibs.push(Sib { path: p.into(), value: v.into(), dynamic: true, ui: None });
+            }
+        }
+    } else {
+        for _ in 0..nc {
+            let (p, v, t, x) = *rng.pick(FONT_CONST);
+            if used.insert(p.to_owned()) {
+                sibs.push(Sib { path: p.into(), value: v.into(), dynamic: false, ui: Some((t.into(), x.into())) });
+            }
+        }
+        for _ in 0..nd {
+            let (p, v) = *rng.pick(FONT_DYN);
+            if used.insert(p.to_owned()) {
+                sibs.push(Sib { path: p.into(), value: v.into(), dynamic: true, ui: None });
+            }
+        }
+    }
+    rng.shuffle(&mut sibs);
+    (lhs.to_owned(), sibs)
+}
+
+struct GenDoc {
+    src: String,
+    expect: Sexp,
+    accepted: bool,
+    ledger: Vec<(String, Sib)>,
+    labels: Vec<String>,
+}
+
+struct DocGen<'r> {
+    rng: &'r mut Rng,
+    labels: BTreeSet<String>,
+    /// root.windowTitle is itself bound (then it is not used as a source: no loops)
+    title_bound: bool,
+}
+
+impl<'r> DocGen<'r> {
+    fn lab(&mut self, l: &str) {
+        self.labels.insert(l.to_owned());
+    }
+    fn int(&mut self, d: usize) -> String {
+        let n = if d == 0 { 6 } else { 13 };
+        match self.rng.below(n) {
+            0 => "spin.value".into(),
+            1 => "slider.value".into(),
+            2 => "combo.currentIndex".into(),
+            3 => "vb.i".into(),
+            4 => {
+                self.lab("doc-chain");
+                "vb.next.i".into()
+            }
+            5 => {
+                self.lab("doc-chain");
+                "vb.next.peer.n".into()
+            }
+            6 => {
+                self.lab("doc-mathmax");
+                let f = *self.rng.pick(&["max", "min"]);
+                format!("Math.{f}({}, {})", self.int(d - 1), self.int(d - 1))
+            }
+            7 => format!("({} + {})", self.int(d - 1), self.int(d - 1)),
+            8 => format!("({} ? {} : {})", self.bool(d - 1), self.int(d - 1), self.int(d - 1)),
+            9 => {
+                // the same property through the same path twice
+                self.lab("doc-samepath");
+                let x = self.int(0);
+                format!("({x} - {x})")
+            }
+            10 => {
+                // the same property of the same object through two different paths
+                self.lab("doc-twopaths");
+                "(vb.i + vb2.next.i)".into()
+            }
+            11 => {
+                self.lab("doc-subscript");
+                format!("vb.ints[{}]", self.int(0))
+            }
+            _ => format!("({} * 2)", self.int(d - 1)),
+        }
+    }
+    fn bool(&mut self, d: usize) -> String {
+        let n = if d == 0 { 4 } else { 9 };
+        match self.rng.below(n) {
+            0 => "check.checked".into(),
+            1 => "vb.b".into(),
+            2 => {
+                self.lab("doc-chain");
+                "vb.next.b".into()
+            }
+            3 => "btn2.checked".into(),
+            4 => format!("({} > {})", self.int(d - 1), self.int(d - 1)),
+            5 => format!("!{}", self.bool(d - 1)),
+            6 => format!("({} && {})", self.bool(d - 1), self.bool(d - 1)),
+            7 => format!("({} == {})", self.str(d - 1), self.str(d - 1)),
+            _ => format!("({} || {})", self.bool(d - 1), self.bool(d - 1)),
+        }
+    }
+    fn str(&mut self, d: usize) -> String {
+        let n = if d == 0 { 5 } else { 11 };
+        match self.rng.below(n) {
+            0 => "edit.text".into(),
+            1 => "combo.currentText".into(),
+            2 => "vb.s".into(),
+            3 => {
+                self.lab("doc-chain");
+                "vb.next.s".into()
+            }
+            4 => {
+                if self.title_bound {
+                    "edit.text".into()
+                } else {
+                    self.lab("doc-root-source");
+                    "root.windowTitle".into()
+                }
+            }
+            5 => {
+                self.lab("doc-arg");
+                format!("\"%1-%2\".arg({}).arg({})", self.str(d - 1), self.int(d - 1))
+            }
+            6 => format!("({} + {})", self.str(d - 1), self.str(d - 1)),
+            7 => {
+                self.lab("doc-subscript");
+                format!("vb.items[{}]", self.int(0))
+            }
+            8 => format!("({} ? {} : {})", self.bool(d - 1), self.str(d - 1), self.str(d - 1)),
+            9 => {
+                self.lab("doc-arg");
+                format!("qsTr(\"n=%1\").arg({})", self.int(d - 1))
+            }
+            _ => {
+                self.lab("doc-chain");
+                "vb.next.next.s".into()
+            }
+        }
+    }
+    fn value(&mut self, ty: char, d: usize) -> String {
+        match ty {
+            'i' => self.int(d),
+            'b' => self.bool(d),
+            _ => self.str(d),
+        }
+    }
+}
+
+const FONT_MEMBERS: &[(&str, char, &str, &str, &str)] = &[
+    // member, type, constant QML value, .ui tag, .ui text
+    ("family", 's', "\"Serif\"", "family", "Serif"),
+    ("pointSize", 'i', "12", "pointsize", "12"),
+    ("bold", 'b', "true", "bold", "true"),
+    ("italic", 'b', "false", "italic", "false"),
+    ("underline", 'b', "true", "underline", "true"),
+    ("weight", 'i', "75", "weight", "75"),
+    ("strikeout", 'b', "true", "strikeout", "true"),
+];
+
+fn gen_document(rng: &mut Rng) -> GenDoc {
+    let special = rng.below(100);
+    let mut g = DocGen { rng, labels: BTreeSet::new(), title_bound: false };
+    let mut ledger: Vec<(String, Sib)> = vec![];
+    let mut root_lines: Vec<String> = vec![];
+    let mut lay_lines: Vec<String> = vec![];
+    let mut tail: Vec<String> = vec![];
+    let mut expect = node("expect", vec![atom("accepted")]);
+    let mut accepted = true;
+    let depth = 1 + g.rng.below(3);
+    let mut bind = |g: &mut DocGen, out: &mut Vec<String>, ind: &str, obj: &str, path: &str, ty: char, ledger: &mut Vec<(String, Sib)>| {
+        let v = g.value(ty, depth);
+        out.push(format!("{ind}{path}: {v}"));
+        ledger.push((obj.to_owned(), Sib { path: path.to_owned(), value: String::new(), dynamic: true, ui: None }));
+    };
+
+    // root
+    if g.rng.chance(1, 3) {
+        g.title_bound = true;
+        g.lab("doc-root-target");
+        bind(&mut g, &mut root_lines, "    ", "root", "windowTitle", 's', &mut ledger);
+    }
+    // the layout itself as a binding target
+    if g.rng.chance(1, 3) {
+        g.lab("doc-layout-target");
+        bind(&mut g, &mut lay_lines, "        ", "lay", "spacing", 'i', &mut ledger);
+    }
+    // target widgets
+    let n_targets = 1 + g.rng.below(3);
+    let mut widgets: Vec<String> = vec![];
+    for t in 0..n_targets {
+        let (cls, id, plain): (&str, String, &[(&str, char)]) = match (t + g.rng.below(3)) % 3 {
+            0 => ("QLabel", format!("label{t}"), &[("text", 's'), ("toolTip", 's'), ("enabled", 'b'), ("indent", 'i'), ("wordWrap", 'b'), ("margin", 'i')]),
+            1 => ("QPushButton", format!("push{t}"), &[("text", 's'), ("enabled", 'b'), ("flat", 'b'), ("checkable", 'b'), ("autoRepeatDelay", 'i'), ("statusTip", 's')]),
+            _ => ("QGroupBox", format!("box{t}"), &[("title", 's'), ("checkable", 'b'), ("enabled", 'b'), ("toolTip", 's')]),
+        };
+        let mut lines: Vec<String> = vec![format!("            id: {id}")];
+        let ind = "            ";
+        // plain bindings
+        let mut props: Vec<(&str, char)> = plain.to_vec();
+        g.rng.shuffle(&mut props);
+        let np = g.rng.below(3);
+        for (p, ty) in props.into_iter().take(np) {
+            bind(&mut g, &mut lines, ind, &id, p, ty, &mut ledger);
+        }
+        // grouped font
+        if g.rng.chance(7, 10) {
+            g.lab("doc-font");
+            let mut ms = FONT_MEMBERS.to_vec();
+            g.rng.shuffle(&mut ms);
+            let n = 1 + g.rng.below(4);
+            let (mut nc, mut nd) = (0, 0);
+            for (i, (m, ty, cv, tag, text)) in ms.into_iter().take(n).enumerate() {
+                // the first member is dynamic, the second constant, then random: mixed maps are the common case
+                let dynamic = match i {
+                    0 => true,
+                    1 => false,
+                    _ => g.rng.chance(1, 2),
+                };
+                let path = format!("font.{m}");
+                if dynamic {
+                    nd += 1;
+                    bind(&mut g, &mut lines, ind, &id, &path, ty, &mut ledger);
+                } else {
+                    nc += 1;
+                    lines.push(format!("{ind}{path}: {cv}"));
+                    ledger.push((id.clone(), Sib { path, value: String::new(), dynamic: false, ui: Some((tag.into(), text.into())) }));
+                }
+            }
+            g.lab(&format!("doc-font-dyn{}-const{}", nd.min(2), nc.min(2)));
+        }
+        // grouped size policy
+        if g.rng.chance(3, 10) {
+            g.lab("doc-sizepolicy");
+            if g.rng.chance(1, 2) {
+                for (p, v) in [("sizePolicy.horizontalPolicy", "QSizePolicy.Expanding"), ("sizePolicy.verticalPolicy", "QSizePolicy.Minimum")] {
+                    lines.push(format!("{ind}{p}: {v}"));
+                    ledger.push((id.clone(), Sib { path: p.into(), value: String::new(), dynamic: false, ui: None }));
+                }
+            }
+            let m = *g.rng.pick(&["sizePolicy.horizontalStretch", "sizePolicy.verticalStretch"]);
+            bind(&mut g, &mut lines, ind, &id, m, 'i', &mut ledger);
+        }
+        // a callback next to the bindings (no subscription of its own; its setup precedes the first update)
+        if cls == "QPushButton" && g.rng.chance(1, 3) {
+            g.lab("doc-callback");
+            lines.push(format!("{ind}onClicked: edit.text = {}", g.str(1)));
+        }
+        widgets.push(format!("        {cls} {{\n{}\n        }}", lines.join("\n")));
+    }
+    // an action as a binding target
+    if g.rng.chance(1, 3) {
+        g.lab("doc-action-target");
+        let mut lines = vec!["        id: act".to_owned()];
+        bind(&mut g, &mut lines, "        ", "act", "text", 's', &mut ledger);
+        if g.rng.chance(1, 2) {
+            bind(&mut g, &mut lines, "        ", "act", "enabled", 'b', &mut ledger);
+        }
+        tail.push(format!("    QAction {{\n{}\n    }}", lines.join("\n")));
+    }
+    // documents that must be rejected: a dynamic binding the generator cannot serve
+    match special {
+        0..=7 => {
+            g.lab("doc-attached-dynamic");
+            let v = g.bool(1);
+            widgets.push(format!(
+                "        QLabel {{\n            id: attached0\n            QLayout.alignment: {v} ? Qt.AlignLeft : Qt.AlignRight\n        }}"
+            ));
+            expect = node("expect", vec![atom("rejected"), st("dynamic binding to attached property")]);
+            accepted = false;
+        }
+        8..=17 => {
+            g.lab("doc-nested-dynamic");
+            let v = g.bool(1);
+            let mut lines = vec!["            id: view".to_owned()];
+            if g.rng.chance(2, 3) {
+                lines.push("            horizontalHeader.defaultSectionSize: 80".to_owned());
+            }
+            lines.push(format!("            horizontalHeader.stretchLastSection: {v}"));
+            if g.rng.chance(1, 3) {
+                lines.push("            verticalHeader.visible: false".to_owned());
+            }
+            widgets.push(format!("        QTableView {{\n{}\n        }}", lines.join("\n")));
+            expect = node("expect", vec![atom("rejected"), st("nested dynamic binding is not supported")]);
+            accepted = false;
+        }
+        18..=23 => {
+            g.lab("doc-unobservable");
+            // QLabel::text has no NOTIFY signal
+            widgets.push("        QLabel {\n            id: stale0\n            toolTip: plain.text + edit.text\n        }".to_owned());
+            expect = node("expect", vec![atom("rejected"), st("unobservable property")]);
+            accepted = false;
+        }
+        24..=27 => {
+            // pseudo properties consumed by the constant pass: a dynamic value must be diagnosed, not dropped
+            g.lab("doc-pseudo-dynamic");
+            if g.rng.chance(1, 2) {
+                widgets.push("        QComboBox {\n            id: pseudo0\n            model: [edit.text, \"b\"]\n        }".to_owned());
+            } else {
+                root_lines.push("    actions: [check.checked ? pact1 : pact2]".to_owned());
+                tail.push("    QAction { id: pact1 }\n    QAction { id: pact2 }".to_owned());
+            }
+            expect = node("expect", vec![atom("rejected")]);
+            accepted = false;
+        }
+        _ => {}
+    }
+    let mut src = String::from("import qmluic.QtWidgets\nQWidget {\n    id: root\n");
+    for l in &root_lines {
+        src.push_str(l);
+        src.push('\n');
+    }
+    src.push_str("    QVBoxLayout {\n        id: lay\n");
+    for l in &lay_lines {
+        src.push_str(l);
+        src.push('\n');
+    }
+    for w in [
+        "QLineEdit { id: edit }",
+        "QCheckBox { id: check }",
+        "QSpinBox { id: spin }",
+        "QSlider { id: slider }",
+        "QComboBox { id: combo }",
+        "QPushButton { id: btn2; checkable: true }",
+        "QLabel { id: plain; text: \"plain\" }",
+        "VBase { id: vb }",
+        "VBase { id: vb2 }",
+    ] {
+        src.push_str(&format!("        {w}\n"));
+    }
+    for w in &widgets {
+        src.push_str(w);
+        src.push('\n');
+    }
+    src.push_str("    }\n");
+    for t in &tail {
+        src.push_str(t);
+        src.push('\n');
+    }
+    src.push_str("}\n");
+    let mut labels: Vec<String> = g.labels.iter().cloned().collect();
+    labels.push(if accepted { "doc-expect-accepted".into() } else { "doc-expect-rejected".into() });
+    GenDoc { src, expect, accepted, ledger, labels }
+}
+
+// ------------------------------------------------------------------------------------------------
+// grouped (gadget-map) bindings and whole documents: every leaf binding as the REAL pipeline sees it
+
+/// One leaf binding (`text`, `font.family`, …) of one object, observed through the read-only hook after the whole
+/// translation ("final" phase: the evaluated-constant flag is the one the passes used).
+#[derive(Clone, Debug)]
+struct Leaf {
+    object: String,
+    kind: String,
+    path: String,
+    code: Sexp,
+    constant: bool,
+}
+
+fn translate_observed(tm: &TypeMap, src: &str) -> (env::Translation, Vec<Leaf>) {
+    let evs: Rc<RefCell<Vec<Leaf>>> = Rc::new(RefCell::new(vec![]));
+    let cap = evs.clone();
+    verif_hook::set_observer(Box::new(move |ev| {
+        if ev.phase != "final" {
+            return;
+        }
+        cap.borrow_mut().push(Leaf {
+            object: ev.object_name.to_owned(),
+            kind: ev.kind.to_owned(),
+            path: ev.path.clone(),
+            code: crate::irser::code_body(ev.code),
+            constant: ev.evaluated_constant,
+        });
+    }));
+    let tr = env::translate(tm, src, "MyType", Mode::Generate);
+    verif_hook::clear_observer();
+    let mut v = evs.borrow().clone();
+    v.sort_by(|a, b| (&a.object, &a.kind, &a.path).cmp(&(&b.object, &b.kind, &b.path)));
+    (tr, v)
+}
+
+/// A sibling member next to the binding under test: `(sib "font.pointSize" "12" const "pointsize" "12")` or
+/// `(sib "font.italic" "b.b" dyn)`.
+#[derive(Clone, Debug)]
+struct Sib {
+    path: String,
+    value: String,
+    dynamic: bool,
+    ui: Option<(String, String)>,
+}
+
+impl Sib {
+    fn sexp(&self) -> Sexp {
+        let mut v = vec![st(self.path.clone()), st(self.value.clone()), atom(if self.dynamic { "dyn" } else { "const" })];
+        if let Some((t, x)) = &self.ui {
+            v.push(st(t.clone()));
+            v.push(st(x.clone()));
+        }
+        node("sib", v)
+    }
+    fn of(s: &Sexp) -> Option<Sib> {
+        let (tag, f) = s.as_node()?;
+        if tag != "sib" && tag != "b" {
+            return None;
+        }
+        let off = usize::from(tag == "b");
+        Some(Sib {
+            path: f.get(off)?.as_str()?.to_owned(),
+            value: if tag == "b" { String::new() } else { f.get(1)?.as_str()?.to_owned() },
+            dynamic: f.get(if tag == "b" { 2 } else { 2 })?.as_atom()? == "dyn",
+            ui: match (f.get(3).and_then(|x| x.as_str()), f.get(4).and_then(|x| x.as_str())) {
+                (Some(t), Some(x)) => Some((t.to_owned(), x.to_owned())),
+                _ => None,
+            },
+        })
+    }
+}
+
+fn siblings_of(args: &[Sexp]) -> Vec<Sib> {
+    args.iter()
+        .find_map(|a| match a.as_node() {
+            Some(("siblings", xs)) => Some(xs.iter().filter_map(Sib::of).collect()),
+            _ => None,
+        })
+        .unwrap_or_default()
+}
+
+/// `ir::document` with sibling bindings added to object `a`
+fn document_with(lhs: &str, program: &Program, sibs: &[Sib]) -> String {
+    let src = ir::document(lhs, program);
+    if sibs.is_empty() {
+        return src;
+    }
+    let anchor = "        id: a\n";
+    let at = src.find(anchor).expect("object a") + anchor.len();
+    let mut out = String::from(&src[..at]);
+    for s in sibs {
+        out.push_str(&format!("        {}: {}\n", s.path, s.value));
+    }
+    out.push_str(&src[at..]);
+    out
+}
+
+/// the properties of object `name` in the .ui text (up to its first child / its end)
+fn ui_object_segment<'a>(ui: &'a str, name: &str) -> Option<&'a str> {
+    let at = ui.find(&format!(" name=\"{name}\">"))?;
+    let rest = &ui[at..];
+    let end = ["<widget ", "<layout ", "<item", "</widget>", "</layout>", "<action ", "<addaction "]
+        .iter()
+        .filter_map(|p| rest[1..].find(p).map(|i| i + 1))
+        .min()
+        .unwrap_or(rest.len());
+    Some(&rest[..end])
+}
+
+struct DocVerdict {
+    bindings: usize,
+    deps: usize,
+    observers: usize,
+    members: usize,
+}
+
+/// The document-level oracle: every leaf the real pipeline (or the generator's ledger) considers dynamic has an update
+/// path in the real header, constant members stay embedded, there is no binding function without a dynamic leaf.
+fn check_document(
+    header: &str,
+    ui: &str,
+    root: &str,
+    leaves: &[Leaf],
+    ledger: &[(String, Sib)],
+) -> Result<DocVerdict, String> {
+    let sender_of = |o: &str| if o == root { "this->root_".to_owned() } else { format!("this->ui_->{o}") };
+    for (obj, b) in ledger {
+        let leaf = leaves.iter().find(|l| l.object == *obj && l.kind == "property" && l.path == b.path);
+        match leaf {
+            None => return Err(format!("binding {obj}.{} not seen by the pipeline", b.path)),
+            Some(l) if b.dynamic && l.constant => {
+                return Err(format!("dynamic binding {obj}.{} was treated as a constant", b.path))
+            }
+            _ => {}
+        }
+        if let (false, Some((tag, text))) = (b.dynamic, &b.ui) {
+            let seg = ui_object_segment(ui, obj).ok_or(format!("object {obj} not in the .ui"))?;
+            if !(seg.contains(&format!("<{tag}>{text}</{tag}>")) || seg.contains(&format!("<{tag} notr=\"true\">{text}</{tag}>"))) {
+                return Err(format!("constant member {obj}.{} = {text} is not embedded in the .ui", b.path));
+            }
+        }
+    }
+    // groups: (object, top-level property) → leaves
+    let mut groups: BTreeMap<(String, String), Vec<&Leaf>> = BTreeMap::new();
+    for l in leaves.iter().filter(|l| l.kind == "property") {
+        let top = l.path.split('.').next().unwrap().to_owned();
+        groups.entry((l.object.clone(), top)).or_default().push(l);
+    }
+    let mut v = DocVerdict { bindings: 0, deps: 0, observers: 0, members: 0 };
+    for ((obj, top), ls) in &groups {
+        let name = format!("{}{}", cap(obj), cap(top));
+        if ls.iter().all(|l| l.constant) {
+            if header.contains(&format!("void setup{name}()")) || header.contains(&format!("void update{name}()")) {
+                return Err(format!("constant binding {obj}.{top} has setup/update functions"));
+            }
+            continue;
+        }
+        let members: Vec<(Vec<String>, &Sexp)> =
+            ls.iter().map(|l| (l.path.split('.').skip(1).map(|x| x.to_owned()).collect(), &l.code)).collect();
+        let (d, n) = check_binding(header, &sender_of, obj, top, &members)
+            .map_err(|e| format!("dynamic binding {obj}.{top} has no (complete) update path: {e}"))?;
+        v.bindings += 1;
+        v.deps += d;
+        v.observers += n;
+        v.members += members.len();
+    }
+    // no binding without a dynamic leaf, none missing
+    let lines: Vec<&str> = header.lines().collect();
+    let at = lines.iter().position(|l| l.trim() == "enum class BindingIndex : unsigned {").ok_or("no BindingIndex")?;
+    let n_index = lines[at + 1..].iter().take_while(|l| l.trim() != "};").filter(|l| !l.trim().is_empty()).count();
+    if n_index != v.bindings {
+        return Err(format!("{n_index} bindings in the header for {} dynamic (groups of) bindings", v.bindings));
+    }
+    Ok(v)
+}
+
+/// damages the header of a grouped binding; None if not applicable
+fn mutate_grouped(header: &str, m: &str) -> Option<String> {
+    let mut lines: Vec<String> = header.lines().map(|l| l.to_owned()).collect();
+    match m {
+        "drop-member" => {
+            let i = lines.iter().position(|l| l.trim().starts_with("a.set") && l.contains("(this->eval"))?;
+            lines.remove(i);
+        }
+        "no-rmw" => {
+            let i = lines.iter().position(|l| l.contains("(this->eval") && l.trim_end().ends_with("()));"))?;
+            let at = lines[i].find("(this->eval")? + 1;
+            let open = lines[i][at..].find('(')? + at;
+            lines[i] = format!("{}({{}}));", &lines[i][..open]);
+        }
+        "drop-group" => {
+            let i = lines.iter().position(|l| l.contains("(this->eval") && l.trim_end().ends_with("()));"))?;
+            let at = lines[i].find("(this->eval")? + "(this->eval".len();
+            let open = lines[i][at..].find('(')? + at;
+            let name = lines[i][at..open].to_owned();
+            lines.retain(|l| l.trim() != format!("this->setup{name}();") && l.trim() != format!("this->update{name}();"));
+        }
+        "drop-connect" => {
+            let i = lines.iter().position(|l| l.contains("QObject::connect(") && l.contains("[this]() { this->update"))?;
+            lines.remove(i);
+        }
+        _ => return None,
+    }
+    Some(lines.join("\n"))
+}
+
+const GROUPED_MUTATIONS: &[&str] = &["drop-member", "no-rmw", "drop-group", "drop-connect"];
+
+impl C02 {
+    /// `(build …)`-shaped answer (the real IR of binding `lhs` of object a) for a document with siblings
+    fn ir_answer(&self, src: &str, lhs: &str) -> Sexp {
+        let (obs, diags) = match ir::observe(&self.tm, src, "property", lhs) {
+            Ok(x) => x,
+            Err(e) => return e,
+        };
+        let n = obs.built_diags.min(diags.len());
+        let mut dv = vec![atom("diags")];
+        dv.extend(diags[..n].iter().filter(|d| d.is_error).map(|d| st(d.message.clone())));
+        match obs.code {
+            Some(code) => node("built", vec![code, node("eval", vec![obs.eval.unwrap_or(atom("_"))]), list(dv)]),
+            None => node("rejected", vec![list(dv)]),
+        }
+    }
+
+    fn doc_verdict(&self, src: &str, root: &str, expect: &Sexp, ledger: &[(String, Sib)], mutation: Option<&str>) -> Sexp {
+        let (tr, leaves) = translate_observed(&self.tm, src);
+        if tr.syntax_errors > 0 {
+            return fail(format!("syntax error in generated document: {src}"));
+        }
+        let msgs: Vec<String> = tr.diags.iter().filter(|d| d.is_error).map(|d| d.message.clone()).collect();
+        let (want_accept, want_msg) = match expect.as_node() {
+            Some(("expect", f)) => match f.first().and_then(|x| x.as_atom()) {
+                Some("accepted") => (Some(true), None),
+                Some("rejected") => (Some(false), f.get(1).and_then(|x| x.as_str())),
+                _ => (None, None),
+            },
+            _ => (None, None),
+        };
+        if !tr.accepted() {
+            if mutation.is_some() {
+                return node("ok", vec![atom("not-applicable")]);
+            }
+            if want_accept == Some(true) {
+                return fail(format!("document expected to compile was rejected: {msgs:?}"));
+            }
+            if let Some(m) = want_msg {
+                if !msgs.iter().any(|x| x.contains(m)) {
+                    return fail(format!("rejected, but not with `{m}`: {msgs:?}"));
+                }
+            }
+            return node("ok", vec![atom("rejected"), st(msgs.first().cloned().unwrap_or_default())]);
+        }
+        if want_accept == Some(false) {
+            // "accepted although a dynamic binding has no update path" is the failure the property is about
+            return fail(format!(
+                "document accepted without diagnostic although it holds a dynamic binding that cannot be generated ({})",
+                want_msg.unwrap_or("?")
+            ));
+        }
+        let Some(header) = tr.header else {
+            return fail("no header although there are no errors");
+        };
+        let ui = tr.ui.unwrap_or_default();
+        if let Some(m) = mutation {
+            if let Err(e) = check_document(&header, &ui, root, &leaves, ledger) {
+                return fail(format!("unmutated header refused: {e}"));
+            }
+            return match mutate_grouped(&header, m) {
+                None => node("ok", vec![atom("not-applicable")]),
+                Some(h2) => match check_document(&h2, &ui, root, &leaves, ledger) {
+                    Err(e) => node("ok", vec![atom("detected"), st(e)]),
+                    Ok(_) => fail(format!("mutation {m} of the header was not detected")),
+                },
+            };
+        }
+        match check_document(&header, &ui, root, &leaves, ledger) {
+            Ok(v) => node(
+                "ok",
+                vec![
+                    node("bindings", vec![num(v.bindings)]),
+                    node("members", vec![num(v.members)]),
+                    node("deps", vec![num(v.deps)]),
+                    node("observers", vec![num(v.observers)]),
+                ],
+            ),
+            Err(e) => fail(e),
+        }
+    }
+
+    /// `(c02-header <4 build args> (expect X) (siblings …))` for a grouped target / a target with siblings
+    fn grouped_oracle(&self, args: &[Sexp], mutation: Option<&str>) -> Sexp {
+        let (_, kind) = args[2].as_node().expect("kind");
+        let lhs = kind[1].as_str().expect("lhs").to_owned();
+        let program = ast::program_of(&args[3]);
+        let sibs = siblings_of(args);
+        let src = document_with(&lhs, &program, &sibs);
+        let expect = args.iter().find(|a| matches!(a.as_node(), Some(("expect", _)))).cloned().unwrap_or(node("expect", vec![atom("any")]));
+        // `unobservable` = must be rejected with that diagnostic
+        let expect = match expect.as_node() {
+            Some((_, f)) if f.first().and_then(|x| x.as_atom()) == Some("unobservable") => {
+                node("expect", vec![atom("rejected"), st("unobservable property")])
+            }
+            _ => expect,
+        };
+        let mut ledger: Vec<(String, Sib)> = sibs.iter().map(|s| ("a".to_owned(), s.clone())).collect();
+        // the binding under test: certainly dynamic when it is a top-level expression that reads a property
+        let main_dynamic = matches!(&program, Program::Stmt(Stmt::Expr(e)) if expr_reads(e));
+        ledger.push(("a".to_owned(), Sib { path: lhs.clone(), value: String::new(), dynamic: main_dynamic, ui: None }));
+        self.doc_verdict(&src, "", &expect, &ledger, mutation)
+    }
+
+    /// `(c02-doc (src "qml") (root "id") (expect …) (ledger (b "obj" "path" dyn|const ["uitag" "text"])…) [(mutation "m")])`
+    fn doc_oracle(&self, args: &[Sexp]) -> Sexp {
+        let get = |tag: &str| args.iter().find_map(|a| match a.as_node() {
+            Some((t, f)) if t == tag => Some(f),
+            _ => None,
+        });
+        let src = get("src").and_then(|f| f.first()?.as_str()).expect("src");
+        let root = get("root").and_then(|f| f.first()?.as_str()).expect("root");
+        let expect = args.iter().find(|a| matches!(a.as_node(), Some(("expect", _)))).cloned().unwrap_or(node("expect", vec![atom("any")]));
+        let ledger: Vec<(String, Sib)> = get("ledger")
+            .map(|f| {
+                f.iter()
+                    .filter_map(|b| {
+                        let (_, x) = b.as_node()?;
+                        Some((x.first()?.as_str()?.to_owned(), Sib::of(b)?))
+                    })
+                    .collect()
+            })
+            .unwrap_or_default();
+        let mutation = get("mutation").and_then(|f| f.first()?.as_str());
+        self.doc_verdict(src, root, &expect, &ledger, mutation)
     }
 }
 
@@ -1783,13 +2660,36 @@ impl Stream for C02 {
             if hist_safe {
                 labels.push("hist".into());
             }
-            let kind = node("kind", vec![atom("prop"), st(ty.lhs())]);
+            // every 4th non-pointer program is the value of a MEMBER of a gadget property (font.*, sizePolicy.*) of
+            // object a, next to 0-2 constant and 0-2 dynamic sibling members of the same gadget
+            let mut grng = Rng::fork(seed, "c02-group", k as u64);
+            let (lhs, sibs): (String, Vec<Sib>) = if !ty.is_ptr() && grng.chance(1, 4) {
+                let (l, s) = grouped_target(&mut grng, ty);
+                labels.push("grouped".into());
+                labels.push(format!("grouped-{}", l.split('.').next().unwrap()));
+                let nc = s.iter().filter(|x| !x.dynamic).count();
+                let nd = s.iter().filter(|x| x.dynamic).count();
+                labels.push(format!("sib-const{}", nc.min(2)));
+                labels.push(format!("sib-dyn{}", nd.min(2)));
+                if s.iter().any(|x| x.dynamic && x.value.matches('.').count() >= 2) {
+                    labels.push("sib-chain".into());
+                }
+                (l, s)
+            } else {
+                (ty.lhs().to_owned(), vec![])
+            };
+            let grouped = lhs.contains('.');
+            let kind = node("kind", vec![atom("prop"), st(lhs.clone())]);
             let build = ir::make_request(kind, &program);
             let (_, build_args) = build.as_node().unwrap();
             let expect_node = node("expect", vec![atom(expect)]);
+            let sib_node = node("siblings", sibs.iter().map(|x| x.sexp()).collect());
 
             let mut a1 = build_args.to_vec();
             a1.push(expect_node.clone());
+            if grouped {
+                a1.push(sib_node.clone());
+            }
             let with = |extra: &str| {
                 let mut l = labels.clone();
                 l.push(extra.to_owned());
@@ -1798,10 +2698,20 @@ impl Stream for C02 {
             cases.push(Case { kind: "pred", labels: with("case-covered"), request: node("coveredcheck", a1) });
 
             let mut a2 = build_args.to_vec();
-            a2.push(expect_node);
-            cases.push(Case { kind: "oracle", labels: with("case-header"), request: node("c02-header", a2) });
+            a2.push(expect_node.clone());
+            if grouped {
+                a2.push(sib_node.clone());
+            }
+            cases.push(Case { kind: "oracle", labels: with("case-header"), request: node("c02-header", a2.clone()) });
 
-            if k % 10 == 0 && expect == "accepted" {
+            if grouped && k % 5 == 0 && expect == "accepted" {
+                let m = *wrng.pick(GROUPED_MUTATIONS);
+                a2.push(node("mutation", vec![st(m)]));
+                let mut l4 = with("case-mutant");
+                l4.push(format!("mut-grouped-{m}"));
+                cases.push(Case { kind: "oracle", labels: l4, request: node("c02-header", a2) });
+            }
+            if !grouped && k % 10 == 0 && expect == "accepted" {
                 let m = *wrng.pick(MUTATIONS);
                 let mut a4 = build_args.to_vec();
                 a4.push(node("mutation", vec![st(m)]));
@@ -1814,7 +2724,39 @@ impl Stream for C02 {
                 let mut a3 = build_args.to_vec();
                 a3.push(world);
                 a3.push(history);
+                if grouped {
+                    a3.push(sib_node.clone());
+                }
                 cases.push(Case { kind: "pred", labels: with("case-history"), request: node("c02-history", a3) });
+            }
+        }
+        // whole documents over real Qt classes (grouped bindings, layouts, actions, attached, nested maps, …)
+        let nd = if thorough { 4_000 } else { 400 };
+        for k in 0..nd {
+            let mut rng = Rng::fork(seed, "c02-doc", k as u64);
+            let d = gen_document(&mut rng);
+            let mut args = vec![
+                node("src", vec![st(d.src.clone())]),
+                node("root", vec![st("root")]),
+                d.expect.clone(),
+                node("ledger", d.ledger.iter().map(|(o, b)| {
+                    let mut v = vec![st(o.clone()), st(b.path.clone()), atom(if b.dynamic { "dyn" } else { "const" })];
+                    if let Some((t, x)) = &b.ui {
+                        v.push(st(t.clone()));
+                        v.push(st(x.clone()));
+                    }
+                    node("b", v)
+                }).collect()),
+            ];
+            let mut labels = d.labels.clone();
+            labels.push("case-doc".into());
+            cases.push(Case { kind: "oracle", labels: labels.clone(), request: node("c02-doc", args.clone()) });
+            if k % 8 == 0 && d.accepted {
+                let m = *rng.pick(GROUPED_MUTATIONS);
+                args.push(node("mutation", vec![st(m)]));
+                labels.push("case-mutant".into());
+                labels.push(format!("mut-doc-{m}"));
+                cases.push(Case { kind: "oracle", labels, request: node("c02-doc", args) });
             }
         }
         cases
@@ -1824,8 +2766,30 @@ impl Stream for C02 {
         let (tag, args) = req.as_node().expect("request node");
         match tag {
             // the real IR, exactly as the `ir` stream reports it (only the four build arguments are used)
-            "coveredcheck" | "c02-history" => Stream::answer(&self.ir, &ir::retag(req, "build")),
-            "c02-header" => self.header_oracle(args, None),
+            "coveredcheck" | "c02-history" => {
+                let sibs = siblings_of(args);
+                if sibs.is_empty() {
+                    Stream::answer(&self.ir, &ir::retag(req, "build"))
+                } else {
+                    let (_, kind) = args[2].as_node().expect("kind");
+                    let lhs = kind[1].as_str().expect("lhs");
+                    self.ir_answer(&document_with(lhs, &ast::program_of(&args[3]), &sibs), lhs)
+                }
+            }
+            "c02-header" => {
+                let (_, kind) = args[2].as_node().expect("kind");
+                let grouped = kind[1].as_str().expect("lhs").contains('.') || !siblings_of(args).is_empty();
+                if grouped {
+                    let m = args.iter().find_map(|a| match a.as_node() {
+                        Some(("mutation", f)) => f.first()?.as_str(),
+                        _ => None,
+                    });
+                    self.grouped_oracle(args, m)
+                } else {
+                    self.header_oracle(args, None)
+                }
+            }
+            "c02-doc" => self.doc_oracle(args),
             // (c02-mutant <4 build args> (mutation "name")): the scanner refuses a damaged header
             "c02-mutant" => {
                 let m = args.get(4).and_then(|x| x.as_node()).and_then(|(_, f)| f.first()?.as_str()).expect("mutation");
@@ -1834,7 +2798,7 @@ impl Stream for C02 {
             // debugging aid: the QML document of a request
             "c02-source" => {
                 let (_, kind) = args[2].as_node().expect("kind");
-                node("source", vec![st(ir::document(kind[1].as_str().expect("lhs"), &ast::program_of(&args[3])))])
+                node("source", vec![st(document_with(kind[1].as_str().expect("lhs"), &ast::program_of(&args[3]), &siblings_of(args)))])
             }
             _ => node("bad-request", vec![st(tag)]),
         }
